@@ -32,15 +32,19 @@ def run(tier):
                 "data and control dependence, every decision-tree path): the real part of every result and every guard of "
                 "every DualNum item, operator, Signed/Inv/From item and field-trait method depends on operand real parts and "
                 "scalar parameters only; comparison traits and predicates forward to the real part in argument order; min/max/clamp "
-                "agree with the reference selection on all weak orderings; plain-float instances forward to std",
+                "agree with the reference selection on all weak orderings; plain-float instances forward to std; branch agreement: with guards "
+                "decided at sample real parts on both sides of every switch, each unary interface method's real part is the expression the "
+                "plain-float instance evaluates on its own path",
                 assumptions=["floating-point operations are deterministic functions of their arguments",
                              "the 'few ulps' clause (recip-then-multiply forms) is not decided", "NaN orderings excluded"],
                 trusted_base=["rustc type checker and name resolution", "ndv-export", "interpreter skeleton (ndvlib/interp.py)"])
     F = facts.load("default")
+    fimps = [i for i in F.impls_of("DualNum") if F.ty(i["self"]).get("n") == "f64"]
     for ty in TYPES:
         noninterference(chk, F, ty)
         predicates(chk, F, ty)
         re_forms(chk, F, ty)
+        branch_agreement(chk, F, ty, fimps[0] if len(fimps) == 1 else None)
         if GRADINGS[ty]["vec"]:
             representation_independence(chk, F, ty)
     for ty in FIELD4:
@@ -54,6 +58,7 @@ def run(tier):
     chk.floor("operations dependency-analysed", chk.analysed.get("operations dependency-analysed", 0), 8 * 60)
     chk.floor("comparison items", chk.analysed.get("comparison items", 0), 20)
     chk.floor("float items", chk.analysed.get("float items", 0), 2 * 29)
+    chk.floor("interface methods compared with the float instance", chk.analysed.get("interface methods compared with the float instance", 0), 8 * 25)
     return chk.finish()
 
 
@@ -245,6 +250,65 @@ def re_forms(chk, F, ty):
                    found=got.show(), required=want.show())
         except Unsupported as ex:
             chk.undecide("re|%s|%s" % (ty, name), "unsupported: %s" % ex, body_loc(F, body))
+
+
+SAMPLES = (Fr(-3), Fr(-1, 2), -Fr(1, 2 ** 60), Fr(0), Fr(1, 2 ** 60), Fr(1, 2), Fr(3))
+
+
+def expand_named(p):
+    """tan / tanh written through sin, cos / sinh, cosh (the canonical form used for the dual side)"""
+    def f(a):
+        if a[0] == "f" and a[1] in ("tan", "tanh"):
+            arg = expand_named(a[2])
+            s_, c_ = ("sin", "cos") if a[1] == "tan" else ("sinh", "cosh")
+            return apply_fn(s_, arg) * apply_fn(c_, arg).recip()
+        return None
+    return p.subst(f)
+
+
+def branch_agreement(chk, F, ty, fimp):
+    """every unary method of the generic interface, evaluated with its guards decided at sample real parts (both signs, both
+    sides of every switch), returns a real part that is the SAME real expression the plain-float instance computes on its own
+    path for that sample: the dual evaluation takes the float evaluation's branch"""
+    imp = algebra.dualnum_impl(F, ty)
+    if imp is None or fimp is None:
+        return
+    A_ = Poly.var("a.re")
+    for it in imp["items"]:
+        name = it["name"]
+        body = F.bodies.get(it["did"])
+        fb = F.impl_item(fimp, name)
+        if body is None or fb is None or len(body["params"]) != 1 or name in ("re", "from_inner", "sin_cos"):
+            continue
+        chk.count("interface methods compared with the float instance")
+        for x in SAMPLES:
+            env = {("v", "a.re", ()): x, ("c", "EPS"): EPS_VALUE}
+            key = "branch|%s|%s|x=%s" % (ty, name, x)
+            try:
+                sp = Spec(ty)
+                ps = run_paths(F, body, lambda: [sp.operand("a")], oracle=sample_oracle(env))
+
+                def thunk(ctx):
+                    i2 = Interp(F, DOMK, ctx=ctx)
+                    i2.scalar_mode = True
+                    return i2.call_body(fb, [Sc(A_)])
+                fs = list(explore(thunk, sample_oracle(env)))
+                if len(ps) != 1 or len(fs) != 1:
+                    chk.undecide(key, "a guard is not decided by the sampled real part (%d dual paths, %d float paths)" % (len(ps), len(fs)), body_loc(F, body))
+                    break
+                r, fr = unref(ps[0][1]), unref(fs[0][1])
+                if isinstance(r, PanicEx) or isinstance(fr, PanicEx):
+                    continue
+                if not isinstance(r, Rec) or not isinstance(fr, Sc):
+                    break
+                got = value_part_poly(r, "re")
+                want = expand_named(fr.v)
+                chk.ob(key, equal(got, want), "at this real part the dual method's real part is the expression the plain-float instance "
+                       "evaluates (same branch taken)", body_loc(F, body), found="%s   [dual path: %s]" % (got.show()[:160], path_descr(ps[0][0])[:80]),
+                       required="%s   [float path: %s]" % (want.show()[:160], path_descr(fs[0][0])[:80]))
+            except Unsupported as ex:
+                chk.undecide(key, "unsupported: %s" % ex, body_loc(F, body))
+                break
 
 
 REF_PRED = {
